@@ -760,6 +760,19 @@ func (rs *dmRstate) op() {
 		b.add("var %s <- attach %s(k: %d) to <-%s", n, A, g.r.Intn(5), v.name)
 		rs.addLeaf(n, true)
 		b.add("%s = %s + (%s[%s]?.f() ?? 0)", rs.acc, rs.acc, n, A)
+		if g.chance(1, 3) {
+			cnt := g.fresh("ac")
+			b.add("var %s = 0", cnt)
+			b.open("%s.forEachAttachment(fun (a: &AnyResourceAttachment) {", n)
+			b.add("%s = %s + 1", cnt, cnt)
+			b.open("if let aa = a as? &%s {", A)
+			b.add("%s = %s + aa.f()", cnt, cnt)
+			b.close()
+			b.ind--
+			b.add("})")
+			b.add("%s = %s + %s", rs.acc, rs.acc, cnt)
+			g.feat("forEachAttachment")
+		}
 		if g.chance(1, 2) {
 			b.add("remove %s from %s", A, n)
 			b.add("%s = %s + (%s[%s] == nil ? 1 : 0)", rs.acc, rs.acc, n, A)
@@ -847,6 +860,68 @@ func (rs *dmRstate) op() {
 		}
 		b.add("destroy %s", n)
 		g.feat("nested-resource-containers")
+	}
+}
+
+// ------------------------------------------------------------------ struct attachments
+
+// genStructAttachment declares an attachment for a declared struct.
+func (g *dmGen) genStructAttachment() {
+	if len(g.structs) == 0 {
+		return
+	}
+	c := dmPick(g, g.structs)
+	name := g.fresh("SA")
+	b := &dmBlk{}
+	b.open("access(all) attachment %s for %s {", name, c.t.String())
+	b.add("access(all) var k: Int")
+	b.open("init(k: Int) {")
+	b.add("self.k = k")
+	b.close()
+	b.open("access(all) fun f(): Int {")
+	intField := ""
+	for _, f := range c.fields {
+		if f.t.eq(dmTInt) {
+			intField = f.name
+		}
+	}
+	if intField != "" {
+		b.add("return base.%s + self.k", intField)
+	} else {
+		b.add("return self.k")
+	}
+	b.close()
+	b.close()
+	g.addDecl(b)
+	g.sAtt = &dmAttachment{name: name, base: c, q: g.qc}
+	g.feat("struct-attachment")
+}
+
+func (g *dmGen) structAttachmentPhase(b *dmBlk, s *dmScope) {
+	a := g.sAtt
+	A := g.fq(a.name)
+	v := g.fresh("sa")
+	w := g.fresh("sa")
+	b.add("var %s = attach %s(k: %d) to %s", v, A, g.r.Intn(5), g.construct(s, a.base, 2))
+	b.add("let %s = %s", w, v)
+	s.add(&dmVr{name: v, t: a.base.t, mut: true, live: true})
+	s.add(&dmVr{name: w, t: a.base.t, live: true})
+	acc := g.fresh("sn")
+	b.add("var %s = (%s[%s]?.f() ?? 0)", acc, v, A)
+	s.add(&dmVr{name: acc, t: dmTInt, mut: true, live: true})
+	if g.chance(1, 2) {
+		b.add("remove %s from %s", A, v)
+		b.add("%s = %s + (%s[%s] == nil ? 1 : 0) + (%s[%s]?.k ?? 0)", acc, acc, v, A, w, A)
+	}
+	if g.chance(1, 2) {
+		r := g.fresh("sr")
+		b.add("let %s = &%s as &%s", r, w, a.base.t.String())
+		b.add("%s = %s + (%s[%s]?.f() ?? 0)", acc, acc, r, A)
+	}
+	if g.chance(1, 3) {
+		x := g.fresh("any")
+		b.add("let %s: AnyStruct = %s", x, w)
+		b.add("%s = %s + ((%s as? %s)?.getType().identifier.length ?? 0)", acc, acc, x, a.base.t.String())
 	}
 }
 
